@@ -1182,7 +1182,7 @@ func runBehaviour(steps []bStep, auth string, maxqos int, res *Result) (result *
 		// barriers: the stimulated connection first (its PINGRESP proves the stimulus was processed and
 		// every delivery it caused sits in the receivers' rings), then every other connection
 		var order []string
-		if m, ok := r.conns[a.C]; ok && !m.closed && !skipBarrier[a.C] {
+		if m, ok := r.conns[a.C]; ok && !m.closed && !skipBarrier[a.C] && !m.broken {
 			order = append(order, a.C)
 		}
 		var others []string
